@@ -6,8 +6,9 @@
 (* {0, 1, 2, 1000}), the five presets and None, budgets {0,1,2,3,40},      *)
 (* thresholds {-1, 0, tiny, +inf, NaN}, thread counts {0,1,2,3,16} and the *)
 (* usize::MAX/3 boundary, the three methods, and a list of games held by   *)
-(* the harness (all payoffs equal; a player without decisions; dominated   *)
-(* actions; payoffs of magnitude 10^6; more threads than nodes; ...).      *)
+(* the harness (all payoffs equal; a player without decisions; no decision *)
+(* at all; dominated actions; payoffs of magnitude 10^6; more threads than *)
+(* nodes; ...).                                                            *)
 (* TLC enumerates the lattice (a deterministic hash slice), states the     *)
 (* specified verdict of each point (ThreadDecision) and emits it for       *)
 (* replay under a watchdog.                                                *)
